@@ -48,8 +48,7 @@ def one(run, k, ref_res, x0, y0, ref_shape, src_res, sx, sy, src_shape, exact, s
     return [float(v) for v in case], desc, contained, obs, accepted
 
 
-def main():
-    run = Run('C16')
+def body(run):
     run.build(extra_targets=['theories/Corr/CheckC16.v'])
     rng = run.rng('cover')
     cases, metas = [], []
@@ -124,8 +123,7 @@ def main():
                        'RasterCompare in turn; non-trivial = some side overhangs or touches; distinct = distinct geometry pair')
     run.extra['input_distribution'] = dict(overhang_sides=sides, model_nontrivial=nt)
     run.trusted += ['rasterio window()/bounds float arithmetic and WarpedVRT bounds are observed (exactness checked on dyadic geometries)']
-    run.finish()
 
 
 if __name__ == '__main__':
-    main()
+    Run('C16').guard(body)
